@@ -98,3 +98,27 @@ Proof.
   pose proof (L_Sched.all_finished_unlocked _ _ _ _ _ _ E Fin) as H.
   destruct (edits_serializable_lemma _ _ _ _ _ _ E H) as [A [B _]]. split; assumption.
 Qed.
+
+(* end to end: the options in force when a view is saved (command-line flags, anything the URL does
+   not override) are part of the stored configuration *)
+Lemma save_keeps_options_in_force_lemma : forall pf js fs cur,
+  (forall s, js s = s) -> nodup_str (map f_name fs) = true ->
+  forallb (fun f => negb (f_saved f && f_transient f)) fs = true ->
+  forall st q st' c before f,
+    set_config pf js fs cur st q = (0, st') ->
+    apply_url_go pf fs cur q = Ok c ->
+    read_settings fs cur st = Some before ->
+    In f fs -> f_saved f = true -> (f_url f = "" \/ vget q (f_url f) = "") ->
+    exists aft c', read_settings fs cur st' = Some aft /\ lookup_first aft (vget q "config") = Some c' /\
+      norm_val (f_kind f) (c' (f_name f)) = norm_val (f_kind f) (cur (f_name f)).
+Proof.
+  intros pf js fs cur Hjs Hnd Hst st q st' c before f H A R Hin S U.
+  destruct (save_meets_spec_lemma pf js fs cur Hjs Hnd Hst st q st' c before H A R) as [aft [Ra Ok1]].
+  unfold save_ok in Ok1. apply andb_true_iff in Ok1. destruct Ok1 as [Ok1 _].
+  apply andb_true_iff in Ok1. destruct Ok1 as [_ Ok2].
+  destruct (lookup_first aft (vget q "config")) as [c'|] eqn:L; [|discriminate].
+  exists aft, c'. split; [exact Ra|]. split; [exact L|].
+  unfold saved_eqb in Ok2. rewrite forallb_forall in Ok2. pose proof (Ok2 f Hin) as X.
+  rewrite S in X. cbn [negb orb] in X. apply String.eqb_eq in X. rewrite <- X.
+  rewrite (apply_url_untouched_lemma pf fs cur q c f Hnd A Hin U). reflexivity.
+Qed.
